@@ -94,6 +94,12 @@ F22e == MkT(O2, S2, <<<<1, 2>>, <<0, 4>>>>, MdRows(<< <<L1("taxonomy", <<"p", "q
 F24frac == [MkT(O2, <<"s1", "s2", "s3", "s4">>, <<<<1, 0, 0, 2>>, <<0, 3, 0, 0>>>>, OMDtax, NoMd, "Ortholog table", "")
             EXCEPT !.mat = <<<<<<1, 2>>, Zero, Zero, <<-3, 4>>>>, <<Zero, <<5, 8>>, Zero, Zero>>>>]
 T23idext == Mk(<<"o1", "o2~0">>, S3, <<<<3, 1, 0>>, <<0, 5, 6>>>>, OMD2, NoMd, "OTU table")   \* an ID that extends another
+\* round-3 additions: a row whose non-zero values cancel, a leading all-zero row, a vector whose non-zero values
+\* are all negative next to a zero, an operand with an observation of its own and the shared samples in another order
+F23cancel == MkT(O2, S3, <<<<2, -2, 0>>, <<0, 5, 6>>>>, NoMd, NoMd, "OTU table", "")
+F23lead0  == MkT(O2, S3, <<<<0, 0, 0>>, <<1, 0, 2>>>>, NoMd, NoMd, "OTU table", "")
+F23neg    == MkT(O2, S3, <<<<-3, 0, -1>>, <<0, 5, 6>>>>, OMD2, NoMd, "OTU table", "")
+MBq   == Mk(<<"o2", "o3">>, <<"s2", "s1">>, <<<<5, 6>>, <<7, 8>>>>, OMDb, NoMd, "")
 \* axes of length 4 (C06: every permutation of an axis up to length 4)
 O4 == <<"o1", "o2", "o3", "o4">>     S4 == <<"s1", "s2", "s3", "s4">>
 OMD4 == MdRows(<< <<S1("k1", "x")>>, <<S1("k1", "y")>>, <<S1("k1", "x")>>, <<S1("k1", "p")>> >>)
